@@ -247,6 +247,15 @@ function familyT (tier, opts = {}) {
     leaf.code = G.SCOPES.sloppy(p.where === 'block' ? `{ ${body} } return [x, y]` : `${body} return [x, y]`)
     leaves.push(leaf)
   }
+  // every count of temporaries from 1 to 70 in one statement (whatever size a declaration, a buffer or a group
+  // may be given, its boundary is crossed), in sloppy and in strict code
+  for (const kind of Object.keys(T_KINDS)) for (let n = 1; n <= 70; n++) for (const scope of ['sloppy', 'strict_fn', 'module']) {
+    if (tier !== 'thorough' && kind !== 'tpl' && n % 8 > 1) continue
+    r.stats.states++; r.stats.transitions++
+    const leaf = mkLeaf('T', { op: `${kind}${n}>count>${scope}`, opkind: 'stmts', scope })
+    leaf.code = G.SCOPES[scope](`x = ${T_KINDS[kind](n)}; return x`)
+    leaves.push(leaf)
+  }
   return { leaves, stats: r.stats }
 }
 
@@ -279,6 +288,8 @@ function familyH (tier, opts = {}) {
     }
   }
   for (const b of bases) rec(b, 0, false, false)
+  // chains hanging from `this` (nothing has to be copied to read it again): one link shorter than the other bases
+  rec('this', 1, false, false)
   return { leaves, stats }
 }
 
@@ -374,6 +385,19 @@ function familyN (tier, opts = {}) {
     for (const o of N_OPERANDS) { stats.transitions++; rec(ops.concat([o])) }
   }
   rec([])
+  // constant chains of every length from 2 to 40 terms (left- and right-nested) as an operand of each operation:
+  // whatever bound a walk over such a chain may be given, it is crossed
+  for (let len = 2; len <= 40; len++) {
+    if (tier !== 'thorough' && len > 20 && len % 4) continue
+    const terms = Array.from({ length: len }, (_, i) => `'s${i}'`)
+    const left = terms.join(' + ')
+    const right = terms.slice(0, -1).reduceRight((acc, o) => `${o} + (${acc})`, terms[len - 1])
+    for (const [cn, chain] of [['L', left], ['R', right]]) for (const op of [`${chain} + a`, `a + (${chain})`, `a.concat(${chain}, b)`, '`${a}:${' + chain + '}`', `x += ${chain}`, `h(${chain}) + a`]) {
+      if (cn === 'R' && tier !== 'thorough' && len % 2) continue
+      stats.states++; stats.transitions++
+      leaves.push(mkLeaf('N', { op, opkind: 'plus' }))
+    }
+  }
   return { leaves, stats }
 }
 
